@@ -44,6 +44,16 @@ NPROC = min(16, os.cpu_count() or 1)
 RANDOM_DAY_MODES = ["lean"] * 7 + ["light"] * 2 + ["full"]
 
 
+def tlc(*a, **kw):
+    """run_tlc, once more when the JVM was killed or timed out (not on a spec error)"""
+    try:
+        return run_tlc(*a, **kw)
+    except MachineryError as e:
+        if "tlc exit" not in str(e):
+            raise
+        return run_tlc(*a, **kw)
+
+
 # ------------------------------------------------------------------ calendar table
 class Table:
     """The month records TLC exported: predicted day number of every day."""
@@ -136,7 +146,8 @@ def check_day(it, y, m, d, n, s, offs, mode="full"):
     second-of-day s for the timed forms; offs = [(k, (y2, m2, d2)), ...] are
     offsets with the predicted target date.  mode:
       "lean"   to_oa_date(date with time) and to_date of the number it gave
-      "bound"  lean, and one `date +- k` through the interpreter
+      "bound"  lean, to_date(n) at midnight, and one `date +- k` at midnight
+               through the interpreter
       "direct" ckl.date.to_oa_date / to_date at midnight and with the time
       "light"  direct, int(date), date(n), `date +- k`, `date - date`
       "full"   every conversion form and every law for each offset
@@ -172,7 +183,7 @@ def check_day(it, y, m, d, n, s, offs, mode="full"):
         ot = direct("to_oa_date", [y, m, d, h, mi, se], "%d+%d/86400" % (n, s),
                     lambda v: abs(Fraction(v) - (n + Fraction(s, 86400))) <= TOL)
         # day number -> date; the number the code itself produced must come back as the same date
-        if not lean:
+        if mode != "lean":
             direct("to_date", n, ymd + (0,), lambda v: fields(v) == ymd + (0,))
         back = ot[1] if ot[0] == "val" and isinstance(ot[1], (int, float)) else n + s / 86400
         direct("to_date", back, ymd + (s,), lambda v: fields(v) == ymd + (s,))
@@ -182,6 +193,8 @@ def check_day(it, y, m, d, n, s, offs, mode="full"):
         return out, cnt
 
     # through the interpreter (one program; on any failure the parts are run one by one)
+    if mode == "bound":
+        s = 0                       # the step across the year end is taken at midnight: date('20201231') + 1
     D0, DT = lit(ymd), lit(ymd, s)
     decs = repr(n + s / 86400)
     parts = []
@@ -497,7 +510,7 @@ def validate_traces(run, events, meta):
         with open(path, "w") as f:
             for e in events:
                 f.write(json.dumps(e) + "\n")
-        res = run_tlc("Date_Trace", workers=1, env={"TRACE_FILE": path}, timeout=3000)
+        res = tlc("Date_Trace", workers=1, env={"TRACE_FILE": path}, timeout=3000)
     finally:
         try:
             os.remove(path)
@@ -523,13 +536,13 @@ def validate_traces(run, events, meta):
 def tlc_tables(run, quick):
     """Run the calendar machines; return (Table of all months, months walked day
     by day, ARITH cases)."""
-    res = run_tlc("Date", "Date_quick", coverage=True, timeout=1200)
+    res = tlc("Date", "Date_quick", coverage=True, timeout=1200)
     run.add_tlc(res, "Date day walk over the quick year ranges (Tick = one calendar day)")
     walked = {(r["y"], r["m"]): (r["n"], r["len"]) for r in res.records("MONTH")}
-    resm = run_tlc("Date", "Date_months", coverage=False, timeout=1800)
+    resm = tlc("Date", "Date_months", coverage=False, timeout=1800)
     run.add_tlc(resm, "Date month walk 1900-01..9999-12 (WholeMonth: every day of every month)")
     tab = Table(resm.records("MONTH"))
-    resy = run_tlc("Date", "Date_years", coverage=True, timeout=1200)
+    resy = tlc("Date", "Date_years", coverage=True, timeout=1200)
     run.add_tlc(resy, "Date year walk 1900..9999 (year-length sum of to_oa_date)")
     years = {r["y"]: (r["n"], r["len"]) for r in resy.records("YEAR")}
     # the three walks must tell one story (a disagreement is a spec bug, not a finding)
@@ -545,11 +558,11 @@ def tlc_tables(run, quick):
         if tab.first[(yy, 1)][0] != n or tab.num(yy, 12, 31) != n + ln - 1:
             raise MachineryError("year walk and month walk disagree on %d" % yy)
     if not quick:
-        rest = run_tlc("Date", "Date_thorough", coverage=False, timeout=7200)
+        rest = tlc("Date", "Date_thorough", coverage=False, timeout=7200)
         run.add_tlc(rest, "Date day walk over every day 1900-01-01..9999-12-31 (810 decade walks)")
         if rest.distinct != LAST - FIRST + 1:
             raise MachineryError("full day walk visited %d days" % rest.distinct)
-    resa = run_tlc("DateArith", "DateArith_quick" if quick else "DateArith_thorough",
+    resa = tlc("DateArith", "DateArith_quick" if quick else "DateArith_thorough",
                    coverage=True, timeout=3000)
     run.add_tlc(resa, "DateArith calendar-stepping machine (d + k is k NextDay steps away)")
     arith = {}
